@@ -13,8 +13,8 @@ import Dippy.Model.Analyzer
 namespace Dippy
 
 inductive Atom where
-  /-- the command proper: the words of one `command` node -/
-  | proper (words : List String) (cwd : String) (remote : Bool)
+  /-- the command proper: the words of one `command` node and the length of its assignment prefix -/
+  | proper (words : List String) (baseIdx : Nat) (cwd : String) (remote : Bool)
   /-- the injection-risk prompt of a pure `$(…)` argument (part of that substitution) -/
   | inject (ctx : CmdCtx) (wd : Word) (pos : Nat)
   /-- one file redirection (local analysis only) -/
@@ -25,16 +25,17 @@ inductive Atom where
   | unknown (kind : String)
 
 /-- step 3 of `_analyze_command` -/
-def properDecisions (w : World) (rec : Rec) (h : HelpTables) (words : List String) (cwd : String) (remote : Bool) :
-    List Decision :=
+def properDecisions (w : World) (rec : Rec) (h : HelpTables) (words : List String) (baseIdx : Nat)
+    (cwd : String) (remote : Bool) : List Decision :=
   if words.isEmpty then []
   else
-    let base := words.getD (skipAssign words) ""
+    let base := words.getD baseIdx ""
     if base == "[" || base == "test" then [⟨.allow, "conditional test"⟩]
-    else [simpleCmd w rec h (words.length + 1) words cwd remote]
+    else if baseIdx ≥ words.length then [⟨.allow, "env assignment"⟩]
+    else [simpleCmd w rec h (words.length + 1) (words.drop baseIdx) cwd remote]
 
 def atomDecisions (w : World) (rec : Rec) (h : HelpTables) : Atom → List Decision
-  | .proper words cwd remote => properDecisions w rec h words cwd remote
+  | .proper words baseIdx cwd remote => properDecisions w rec h words baseIdx cwd remote
   | .inject ctx wd pos => injectionRisk w ctx wd pos
   | .redir op target cwd => redirectDecision w op target cwd
   | .text s cwd remote => scanArg rec s cwd remote
@@ -62,7 +63,7 @@ mutual
 def flat : Node → String → Bool → List Atom
   | .command ws rs, cwd, remote =>
     let ctx := mkCmdCtxS w.hasHandler w.simpleSafe ws
-    flatCmdWords ctx ws 0 cwd remote ++ flatRedirects rs cwd remote ++ [.proper ctx.words cwd remote]
+    flatCmdWords ctx ws 0 cwd remote ++ flatRedirects rs cwd remote ++ [.proper ctx.words ctx.baseIdx cwd remote]
   | .pipeline cmds, cwd, remote => flatNodes cmds cwd remote
   | .list parts, cwd, remote => flatListParts parts (effectiveCwdS w.resolveCd parts cwd remote) remote
   | .ifN c t e rs, cwd, remote =>
